@@ -13,7 +13,7 @@ def run(tier, seed):
     o5, u5 = grid.right_loc_obligations("C06")
     obs += [x for x in o5 if "neighbour_is_generator_plus_shift" in x.name or x.expect_sat]; fns += [{"fn": u.label, "slice_sha": u.sha} for u in u5]
     o6, us = faces.face_init_obligations("C06")
-    obs += [x for x in o6 if "face_labels" in x.name]; fns += [{"fn": us[1].label, "slice_sha": us[1].sha}]
+    obs += [x for x in o6 if "face_labels" in x.name]; fns += [{"fn": u_.label, "slice_sha": u_.sha} for u_ in us[1:2]]
     smt.discharge_all(obs, tier)
     results = [runner.from_smt(o) for o in obs]
     results += kani.run_specs("C06", e3sets.CUBOID, tier)
